@@ -1,162 +1,33 @@
-(* Proofs/PingIff.v — identifiers, distinctness, and "nil iff own reply" over all histories. *)
+(* Proofs/PingIff.v — "nil iff own reply" over all histories (no side condition: since the wrap
+   repair in /repo identifiers still in the table are skipped and a call removes only its own entry). *)
 From PV Require Import Base.Prelude Model.Ping Model.PingTrace Proofs.Ping.
 Open Scope N_scope.
 
-(* ------------------------------------------------------------------ *)
-(* shape of one step (tactic step_cases: Proofs/Ping.v) *)
-
-Lemma step_cnt fx s e s' : step fx s e = Ok s' ->
-  cnt s' = cnt s + (match e with Begin _ => 1 | BulkFail n => n | _ => 0 end) /\
-  next s' = (match e with Begin _ => u16 (next s + 1) | BulkFail n => u16 (next s + n) | _ => next s end).
-Proof. intros H. step_cases H; cbn; split; try reflexivity; lia. Qed.
-
-(* what a call record of the new state is *)
-Lemma step_pget fx s e s' : step fx s e = Ok s' ->
-  forall q0 pg', pget (pings s') q0 = Some pg' ->
-    (exists pg, pget (pings s) q0 = Some pg /\ p_id pg' = p_id pg /\ p_seq pg' = p_seq pg /\
-                (outstanding pg' = true -> outstanding pg = true))
-    \/ (pget (pings s) q0 = None /\ e = Begin q0 /\ p_id pg' = next s /\ p_seq pg' = cnt s).
-Proof.
-  intros H q0 pg' Hq. step_cases H; cbn [pings set_pings] in Hq; rewrite ?pget_pset in Hq.
-  - destruct (Nat.eqb_spec q0 p).
-    + subst. inversion Hq; subst. right. cbn. auto.
-    + left. eauto 6.
-  - destruct (Nat.eqb_spec q0 p).
-    + subst. inversion Hq; subst. left. exists pgp. cbn. unfold outstanding. rewrite Eph. auto.
-    + left. eauto 6.
-  - destruct (Nat.eqb_spec q0 p).
-    + subst. inversion Hq; subst. left. exists pgp. cbn. repeat split; auto; try discriminate.
-    + left. eauto 6.
-  - left. eauto 6.
-  - destruct (Nat.eqb_spec q0 q).
-    + subst. inversion Hq; subst. left. exists pgq. cbn. auto.
-    + left. eauto 6.
-  - left. eauto 6.
-  - left. eauto 6.
-  - destruct (Nat.eqb_spec q0 p).
-    + subst. inversion Hq; subst. left. exists pgp. cbn. unfold outstanding. rewrite Eph. auto.
-    + left. eauto 6.
-  - destruct (Nat.eqb_spec q0 p).
-    + subst. inversion Hq; subst. left. exists pgp. cbn. repeat split; auto; try discriminate.
-    + left. eauto 6.
-Qed.
-
-(* calls never disappear, keep their id and seq, and never leave Returned *)
+(* calls never disappear, keep their id, and never leave Returned *)
 Lemma step_pget_fwd fx s e s' : step fx s e = Ok s' ->
   forall q0 pg, pget (pings s) q0 = Some pg ->
-    exists pg', pget (pings s') q0 = Some pg' /\ p_id pg' = p_id pg /\ p_seq pg' = p_seq pg /\
+    exists pg', pget (pings s') q0 = Some pg' /\ p_id pg' = p_id pg /\
                 (forall r, p_phase pg = Returned r -> p_phase pg' = Returned r).
 Proof.
-  intros H q0 pg Hq. step_cases H; cbn [pings set_pings]; rewrite ?pget_pset.
-  - destruct (Nat.eqb_spec q0 p); [congruence|]. eauto 6.
-  - destruct (Nat.eqb_spec q0 p).
-    + subst. rewrite Ep in Hq. inversion Hq; subst. eexists. split; [reflexivity|]. cbn.
-      repeat split; auto. intros r Hr. congruence.
-    + eauto 6.
-  - destruct (Nat.eqb_spec q0 p).
-    + subst. rewrite Ep in Hq. inversion Hq; subst. eexists. split; [reflexivity|]. cbn.
-      repeat split; auto. intros r Hr. congruence.
-    + eauto 6.
-  - eauto 6.
-  - destruct (Nat.eqb_spec q0 q).
-    + subst. rewrite Epq in Hq. inversion Hq; subst. eexists. split; [reflexivity|]. cbn. auto.
-    + eauto 6.
-  - eauto 6.
-  - eauto 6.
-  - destruct (Nat.eqb_spec q0 p).
-    + subst. rewrite Ep in Hq. inversion Hq; subst. eexists. split; [reflexivity|]. cbn.
-      repeat split; auto. intros r Hr. congruence.
-    + eauto 6.
-  - destruct (Nat.eqb_spec q0 p).
-    + subst. rewrite Ep in Hq. inversion Hq; subst. eexists. split; [reflexivity|]. cbn.
-      repeat split; auto. intros r Hr. congruence.
-    + eauto 6.
-Qed.
-
-(* ------------------------------------------------------------------ *)
-(* identifier arithmetic (ghost counters) *)
-
-Record Inv2 (n : N) (s : state) : Prop := {
-  inv2_next : next s = (n + cnt s) mod 65536;
-  inv2_id : forall q pg, pget (pings s) q = Some pg ->
-              p_id pg = (n + p_seq pg) mod 65536 /\ p_seq pg < cnt s;
-  inv2_inj : forall q1 q2 pg1 pg2, pget (pings s) q1 = Some pg1 -> pget (pings s) q2 = Some pg2 ->
-              p_seq pg1 = p_seq pg2 -> q1 = q2
-}.
-
-Lemma Inv2_init n : n < 65536 -> Inv2 n (init n).
-Proof.
-  intros H. constructor; cbn [init next cnt pings pget]; try discriminate.
-  rewrite N.add_0_r, N.mod_small; auto.
-Qed.
-
-Lemma Inv2_step fx n s e s' : Inv2 n s -> step fx s e = Ok s' -> Inv2 n s'.
-Proof.
-  intros [Hn Hid Hinj] H. destruct (step_cnt _ _ _ _ H) as [Hc Hnx].
-  pose proof (step_pget _ _ _ _ H) as Hp.
-  constructor.
-  - rewrite Hnx, Hc. destruct e; rewrite ?N.add_0_r; auto; unfold u16; rewrite Hn;
-      generalize (cnt s); intros c; lia.
-  - intros q pg' Hq. destruct (Hp _ _ Hq) as [(pg & Hq0 & Hi & Hs & _)|(Hq0 & Hq0' & Hi & Hs)].
-    + destruct (Hid _ _ Hq0) as [A B]. rewrite Hi, Hs. split; [exact A|]. rewrite Hc. lia.
-    + rewrite Hi, Hs, Hn. split; [reflexivity|]. rewrite Hc. subst e. lia.
-  - intros q1 q2 pg1 pg2 H1 H2 Es.
-    destruct (Hp _ _ H1) as [(pa & Ha & _ & Hsa & _)|(Ha & Ea & _ & Hsa)];
-    destruct (Hp _ _ H2) as [(pb & Hb & _ & Hsb & _)|(Hb & Eb & _ & Hsb)].
-    + eapply Hinj; eauto. congruence.
-    + destruct (Hid _ _ Ha) as [_ L]. lia.
-    + destruct (Hid _ _ Hb) as [_ L]. lia.
-    + subst e. inversion Eb. reflexivity.
-Qed.
-
-Lemma Inv2_run fx n tr s : n < 65536 -> run fx (init n) tr = Ok s -> Inv2 n s.
-Proof. intros Hn. apply run_ind; [apply Inv2_init; exact Hn|]. intros; eapply Inv2_step; eauto. Qed.
-
-(* the exact rule: two calls have the same identifier iff their Begin events are a multiple of
-   65536 apart *)
-Lemma id_equal_iff n s q1 q2 pg1 pg2 : Inv2 n s ->
-  pget (pings s) q1 = Some pg1 -> pget (pings s) q2 = Some pg2 ->
-  (p_id pg1 = p_id pg2 <-> p_seq pg1 mod 65536 = p_seq pg2 mod 65536).
-Proof.
-  intros [_ Hid _] H1 H2. destruct (Hid _ _ H1) as [-> _]. destruct (Hid _ _ H2) as [-> _].
-  generalize (p_seq pg1) (p_seq pg2). intros a b. split; intros H; lia.
-Qed.
-
-Lemma ids_distinct n s q1 q2 pg1 pg2 : Inv2 n s -> young s -> q1 <> q2 ->
-  pget (pings s) q1 = Some pg1 -> pget (pings s) q2 = Some pg2 ->
-  outstanding pg1 = true -> outstanding pg2 = true -> p_id pg1 <> p_id pg2.
-Proof.
-  intros HI Hy Hne H1 H2 W1 W2 E.
-  apply (proj1 (id_equal_iff _ _ _ _ _ _ HI H1 H2)) in E.
-  destruct HI as [_ Hid Hinj].
-  assert (Hs : p_seq pg1 <> p_seq pg2) by (intros Es; apply Hne; eapply Hinj; eauto).
-  destruct (Hid _ _ H1) as [_ L1]. destruct (Hid _ _ H2) as [_ L2].
-  pose proof (Hy _ _ H1 W1) as Y1. pose proof (Hy _ _ H2 W2) as Y2.
-  revert E Hs L1 L2 Y1 Y2. generalize (p_seq pg1) (p_seq pg2) (cnt s). intros a b c. lia.
-Qed.
-
-Lemma mod_gap m d : 0 < d < 65536 ->
-  (m mod 65536 + 65536 - (m + d) mod 65536) mod 65536 = 65536 - d.
-Proof. intros H. lia. Qed.
-
-(* the next k identifiers are not held by an outstanding call, as long as the state stays young
-   after handing them out *)
-Lemma range_fresh n s q pg k : Inv2 n s ->
-  pget (pings s) q = Some pg -> cnt s + k - p_seq pg < 65536 -> k <= 65536 ->
-  in_range (p_id pg) (next s) k = false.
-Proof.
-  intros [Hn Hid _] H Y Hk. destruct (Hid _ _ H) as [-> L]. rewrite Hn. unfold in_range.
-  revert L Y. generalize (p_seq pg) (cnt s). intros a c L Y.
-  apply N.ltb_ge.
-  replace (n + c) with (n + a + (c - a)) by lia.
-  rewrite mod_gap by lia. lia.
-Qed.
-
-Lemma next_fresh n s q pg : Inv2 n s -> young s ->
-  pget (pings s) q = Some pg -> outstanding pg = true -> next s <> p_id pg.
-Proof.
-  intros [Hn Hid _] Hy H W. destruct (Hid _ _ H) as [-> L]. rewrite Hn.
-  pose proof (Hy _ _ H W) as Y. revert L Y. generalize (p_seq pg) (cnt s). intros a c. lia.
+  intros H q0 pg Hq.
+  assert (Hupd : forall p pgp pg', pget (pings s) p = Some pgp -> p_id pg' = p_id pgp ->
+            (forall r, p_phase pgp = Returned r -> p_phase pg' = Returned r) ->
+            exists pg'', pget (pset (pings s) p pg') q0 = Some pg'' /\ p_id pg'' = p_id pg /\
+                         (forall r, p_phase pg = Returned r -> p_phase pg'' = Returned r)).
+  { intros p0 pgp pg' Ep0 E1 E2. rewrite pget_pset. destruct (Nat.eqb_spec q0 p0).
+    - subst. rewrite Ep0 in Hq. inversion Hq; subst. eauto.
+    - eauto. }
+  step_cases H; cbn [pings set_pings].
+  - rewrite pget_pset. destruct (Nat.eqb_spec q0 p); [congruence|]. eauto.
+  - rewrite pget_pset. destruct (Nat.eqb_spec q0 p); [congruence|]. eauto.
+  - eapply Hupd; eauto. intros r Hr. congruence.
+  - eapply Hupd; eauto. intros r Hr. congruence.
+  - eauto.
+  - eapply Hupd; eauto.
+  - eauto.
+  - eauto.
+  - eapply Hupd; eauto. intros r Hr. congruence.
+  - eapply Hupd; eauto. intros r Hr. congruence.
 Qed.
 
 (* ------------------------------------------------------------------ *)
@@ -166,18 +37,26 @@ Definition has_entry (s : state) : Prop :=
   forall p pg, pget (pings s) p = Some pg -> outstanding pg = true -> p_recv pg = false ->
                tget (tbl s) (p_id pg) = Some p.
 
-Lemma has_entry_step fx n s e s' :
-  Inv s -> Inv2 n s -> young s -> young s' -> has_entry s -> step fx s e = Ok s' -> has_entry s'.
+Lemma has_entry_step fx s e s' :
+  Inv s -> has_entry s -> step fx s e = Ok s' -> has_entry s'.
 Proof.
-  intros HI HI2 Hy Hy' HE H. pose proof (inv_entry _ HI) as Hent.
-  pose proof (step_cnt _ _ _ _ H) as [Hcnt _].
-  pose proof (step_pget_fwd _ _ _ _ H) as Hfwd.
+  intros HI HE H. pose proof (inv_entry _ HI) as Hent.
+  (* deleting p's own entry does not touch the entry of another call *)
+  assert (Hown : forall p pgp p0 pg0, pget (pings s) p = Some pgp -> p0 <> p ->
+            tget (tbl s) (p_id pg0) = Some p0 ->
+            tget (tdel_own (tbl s) (p_id pgp) p) (p_id pg0) = Some p0).
+  { intros p1 pgp p0 pg0 Ep1 Hne T. rewrite tget_tdel_own.
+    destruct (N.eqb_spec (p_id pg0) (p_id pgp)) as [Eid|]; [|exact T].
+    rewrite Eid in T. rewrite T. destruct (Nat.eqb_spec p0 p1); [contradiction|]. cbn [andb]. rewrite Eid. exact T. }
   unfold has_entry in *. step_cases H; cbn [tbl pings set_pings]; intros p0 pg0; rewrite ?pget_pset.
+  - (* Begin, table full *)
+    destruct (Nat.eqb_spec p0 p); [intros E W R; inversion E; subst; discriminate|apply HE].
   - (* Begin *)
+    destruct (first_free_spec _ _ _ _ (inv_next _ HI) Eal) as [Hfree _].
     destruct (Nat.eqb_spec p0 p).
     + intros E W R. inversion E; subst; clear E. cbn [p_id]. rewrite tget_tset, N.eqb_refl. reflexivity.
-    + intros E W R. pose proof (HE _ _ E W R) as T. pose proof (next_fresh _ _ _ _ HI2 Hy E W) as F.
-      rewrite tget_tset. destruct (N.eqb_spec (p_id pg0) (next s)); [congruence|exact T].
+    + intros E W R. pose proof (HE _ _ E W R) as T.
+      rewrite tget_tset. destruct (N.eqb_spec (p_id pg0) ia); [congruence|exact T].
   - (* Sent true *)
     destruct (Nat.eqb_spec p0 p).
     + intros E W R. inversion E; subst; clear E. cbn [p_id p_recv] in *. apply HE; auto.
@@ -186,16 +65,8 @@ Proof.
   - (* Sent false *)
     destruct (Nat.eqb_spec p0 p).
     + intros E W R. inversion E; subst. discriminate.
-    + intros E W R. pose proof (HE _ _ E W R) as T. destruct fx; [|exact T]. rewrite tget_tdel.
-      destruct (N.eqb_spec (p_id pg0) (p_id pgp)) as [Eid|]; [|exact T].
-      exfalso. eapply (ids_distinct n s p0 p); eauto. unfold outstanding. rewrite Eph. reflexivity.
-  - (* BulkFail *)
-    intros E W R. pose proof (HE _ _ E W R) as T. rewrite tget_tdel_range.
-    apply andb_true_iff in Ebk. destruct Ebk as [_ Ebk].
-    rewrite (range_fresh n s p0 pg0 nb HI2 E); [exact T| |lia].
-    cbn [cnt] in Hcnt.
-    destruct (Hfwd _ _ E) as (pg' & Hp' & _ & Hs' & _). cbn [pings] in Hp'. rewrite E in Hp'.
-    inversion Hp'; subst pg'. pose proof (Hy' _ _ E W) as Y. cbn [cnt] in Y. exact Y.
+    + intros E W R. pose proof (HE _ _ E W R) as T. destruct fx; [|exact T]. eapply Hown; eauto.
+  - apply HE.
   - (* Notify, entry present *)
     destruct (Nat.eqb_spec p0 q).
     + intros E W R. inversion E; subst. discriminate.
@@ -211,58 +82,22 @@ Proof.
   - (* End *)
     destruct (Nat.eqb_spec p0 p).
     + intros E W R. inversion E; subst. discriminate.
-    + intros E W R. pose proof (HE _ _ E W R) as T. rewrite tget_tdel.
-      destruct (N.eqb_spec (p_id pg0) (p_id pgp)) as [Eid|]; [|exact T].
-      exfalso. eapply (ids_distinct n s p0 p); eauto. unfold outstanding. rewrite Eph. reflexivity.
+    + intros E W R. pose proof (HE _ _ E W R) as T. eapply Hown; eauto.
 Qed.
 
-(* ------------------------------------------------------------------ *)
-(* reachable states along a history whose states are all young *)
+Record Good (s : state) : Prop := { good_inv : Inv s; good_entry : has_entry s }.
 
-Lemma always_head fx P s tr : always fx P s tr -> P s.
-Proof. destruct tr; cbn [always]; tauto. Qed.
+Lemma Good_init n : n < 65536 -> Good (init n).
+Proof. intros H. constructor; [apply Inv_init; auto|]. intros p pg; cbn; discriminate. Qed.
 
-Lemma always_step fx P s e r s' : always fx P s (e :: r) -> step fx s e = Ok s' -> always fx P s' r.
-Proof. cbn [always]. intros [_ H] E. rewrite E in H. exact H. Qed.
+Lemma Good_step fx s e s' : Good s -> step fx s e = Ok s' -> Good s'.
+Proof. intros [A C] H. constructor; [eapply Inv_step|eapply has_entry_step]; eauto. Qed.
 
-Record Good (n : N) (s : state) : Prop := {
-  good_inv : Inv s; good_inv2 : Inv2 n s; good_entry : has_entry s
-}.
-
-Lemma Good_init n : n < 65536 -> Good n (init n).
+Lemma Good_run fx tr : forall s s', Good s -> run fx s tr = Ok s' -> Good s'.
 Proof.
-  intros H. constructor; [apply Inv_init|apply Inv2_init|]; auto. intros p pg; cbn; discriminate.
-Qed.
-
-Lemma Good_step fx n s e s' : Good n s -> young s -> young s' -> step fx s e = Ok s' -> Good n s'.
-Proof.
-  intros [A B C] Hy Hy' H. constructor; [eapply Inv_step|eapply Inv2_step|eapply has_entry_step]; eauto.
-Qed.
-
-Lemma Good_run fx n tr : forall s s', Good n s -> always fx young s tr -> run fx s tr = Ok s' ->
-  Good n s' /\ young s'.
-Proof.
-  induction tr as [|e r IH]; intros s s' G A; cbn [run].
-  - intros E; inversion E; subst. split; [exact G|]. eapply always_head; eauto.
-  - destruct (step fx s e) eqn:E; try discriminate. intros H.
-    pose proof (always_step _ _ _ _ _ _ A E) as A'.
-    eapply IH; [|exact A'|exact H]. eapply Good_step; eauto; eapply always_head; eauto.
-Qed.
-
-Lemma always_app fx P tr1 : forall s tr2 s', always fx P s (tr1 ++ tr2) -> run fx s tr1 = Ok s' ->
-  always fx P s' tr2.
-Proof.
-  induction tr1 as [|e r IH]; intros s tr2 s' A; cbn [run app] in *.
-  - intros E; inversion E; subst; exact A.
-  - destruct (step fx s e) eqn:E; try discriminate. intros H. eapply IH; [|exact H].
-    eapply always_step; eauto.
-Qed.
-
-Lemma always_prefix fx P a : forall s b, always fx P s (a ++ b) -> always fx P s a.
-Proof.
-  induction a as [|e r IH]; intros s b A; cbn [app always] in *.
-  - split; [eapply always_head; eauto|exact I].
-  - destruct A as [A1 A2]. split; [exact A1|]. destruct (step fx s e); auto. eapply IH; eauto.
+  induction tr as [|e r IH]; intros s s' G; cbn [run].
+  - intros E; inversion E; subst. exact G.
+  - destruct (step fx s e) eqn:E; try discriminate. intros H. eapply IH; [|exact H]. eapply Good_step; eauto.
 Qed.
 
 Lemma run_app_inv fx a : forall s b s', run fx s (a ++ b) = Ok s' ->
@@ -271,6 +106,16 @@ Proof.
   induction a as [|e r IH]; intros s b s'; cbn [run app].
   - eauto.
   - destruct (step fx s e); try discriminate. apply IH.
+Qed.
+
+(* two calls that are outstanding and not yet woken never share an identifier *)
+Lemma ids_distinct s q1 q2 pg1 pg2 : has_entry s -> q1 <> q2 ->
+  pget (pings s) q1 = Some pg1 -> pget (pings s) q2 = Some pg2 ->
+  outstanding pg1 = true -> outstanding pg2 = true -> p_recv pg1 = false -> p_recv pg2 = false ->
+  p_id pg1 <> p_id pg2.
+Proof.
+  intros HE Hne H1 H2 W1 W2 R1 R2 E. pose proof (HE _ _ H1 W1 R1) as T1. pose proof (HE _ _ H2 W2 R2) as T2.
+  rewrite E in T1. congruence.
 Qed.
 
 (* ------------------------------------------------------------------ *)
@@ -286,6 +131,7 @@ Lemma tracks_step fx s e s' pp i b :
 Proof.
   intros HI HE (pg & Hp & Hid & Hw & Hr) H Hne Hne2. pose proof (inv_entry _ HI) as Hent.
   unfold tracks. step_cases H; cbn [pings set_pings is_notify]; rewrite ?pget_pset, ?orb_false_r.
+  - destruct (Nat.eqb_spec pp p); [congruence|]. eauto 6.
   - destruct (Nat.eqb_spec pp p); [congruence|]. eauto 6.
   - destruct (Nat.eqb_spec pp p).
     + subst p. rewrite Ep in Hp. inversion Hp; subst pgp. eexists. split; [reflexivity|]. cbn. auto.
@@ -314,17 +160,16 @@ Proof.
   - destruct (Nat.eqb_spec pp p); [subst; congruence|]. eauto 6.
 Qed.
 
-Lemma tracks_run fx n mid : forall s s2 p i b,
-  Good n s -> always fx young s mid -> tracks p i b s -> run fx s mid = Ok s2 ->
+Lemma tracks_run fx mid : forall s s2 p i b,
+  Good s -> tracks p i b s -> run fx s mid = Ok s2 ->
   ~ In (End p) mid -> ~ In (Sent p false) mid ->
   tracks p i (b || existsb (is_notify i) mid) s2.
 Proof.
-  induction mid as [|e r IH]; intros s s2 p i b G A T; cbn [run existsb].
+  induction mid as [|e r IH]; intros s s2 p i b G T; cbn [run existsb].
   - intros E _ _; inversion E; subst. rewrite orb_false_r. exact T.
   - destruct (step fx s e) eqn:E; try discriminate. intros H Hn Hn2.
-    pose proof (always_step _ _ _ _ _ _ A E) as A'.
-    rewrite orb_assoc. eapply IH; [|exact A'| |exact H| |].
-    + eapply Good_step; eauto; eapply always_head; eauto.
+    rewrite orb_assoc. eapply IH; [| |exact H| |].
+    + eapply Good_step; eauto.
     + eapply tracks_step; eauto; [apply G|apply G| |].
       * intros ->. apply Hn. left. reflexivity.
       * intros ->. apply Hn2. left. reflexivity.
@@ -340,7 +185,7 @@ Proof.
   induction tr as [|e t IH]; intros s s' p pg r Hp Hr; cbn [run].
   - intros E; inversion E; subst. eauto.
   - destruct (step fx s e) eqn:E; try discriminate. intros H.
-    destruct (step_pget_fwd _ _ _ _ E _ _ Hp) as (pg1 & Hp1 & Hi1 & _ & Hr1).
+    destruct (step_pget_fwd _ _ _ _ E _ _ Hp) as (pg1 & Hp1 & Hi1 & Hr1).
     destruct (IH _ _ _ _ _ Hp1 (Hr1 _ Hr) H) as (pg' & A & B & C). exists pg'. repeat split; auto. congruence.
 Qed.
 
@@ -354,6 +199,10 @@ Proof.
     rewrite pget_pset, Nat.eqb_refl. eexists; eexists; split; reflexivity.
   - inversion H; subst. cbn [pings]. rewrite pget_pset, Nat.eqb_refl. eexists; eexists; split; reflexivity.
 Qed.
+
+Lemma returned_no_end fx s s' p pg r : pget (pings s) p = Some pg -> p_phase pg = Returned r ->
+  step fx s (End p) <> Ok s'.
+Proof. intros Hp Hr. cbn [step]. rewrite Hp, Hr. discriminate. Qed.
 
 Lemma first_return fx mid : forall s s2 p, run fx s (mid ++ [End p]) = Ok s2 ->
   ~ In (End p) mid /\ ~ In (Sent p false) mid.
@@ -384,31 +233,37 @@ Qed.
 Theorem ping_iff fx n pre p mid post s :
   n < 65536 ->
   run fx (init n) (pre ++ Begin p :: mid ++ End p :: post) = Ok s ->
-  always fx young (init n) (pre ++ Begin p :: mid ++ End p :: post) ->
   exists i, id_of s p = Some i /\
     (result_of s p = Some RNil <-> In (Notify i) mid) /\
     (result_of s p = Some RTimeout <-> ~ In (Notify i) mid).
 Proof.
-  intros Hn Hrun Hal.
+  intros Hn Hrun.
   destruct (run_app_inv _ _ _ _ _ Hrun) as (s0 & R0 & Hrun1).
-  pose proof (always_app _ _ _ _ _ _ Hal R0) as Hal0.
-  pose proof (always_prefix _ _ _ _ _ Hal) as Hal_pre.
   cbn [run] in Hrun1. destruct (step fx s0 (Begin p)) as [s1| | |] eqn:E1; try discriminate.
-  pose proof (always_step _ _ _ _ _ _ Hal0 E1) as Hal1.
   destruct (run_app_inv _ _ _ _ _ Hrun1) as (s2 & R2 & Hrun2).
-  pose proof (always_prefix _ _ _ _ _ Hal1) as Hal_mid.
-  assert (Hfirst : ~ In (End p) mid /\ ~ In (Sent p false) mid).
-  { cbn [run] in Hrun2. destruct (step fx s2 (End p)) as [s3| | |] eqn:E3; try discriminate.
-    apply (first_return fx mid s1 s3 p). rewrite run_app, R2. cbn [run]. rewrite E3. reflexivity. }
-  destruct Hfirst as [Hnm Hnf].
   cbn [run] in Hrun2. destruct (step fx s2 (End p)) as [s3| | |] eqn:E3; try discriminate.
-  destruct (Good_run _ _ _ _ _ (Good_init _ Hn) Hal_pre R0) as [G0 Y0].
-  pose proof (Good_step _ _ _ _ _ G0 Y0 (always_head _ _ _ _ Hal1) E1) as G1.
-  assert (T1 : tracks p (next s0) false s1).
-  { cbn [step] in E1. destruct (pget (pings s0) p) eqn:Ep; [discriminate|]. cbv zeta in E1.
-    inversion E1; subst s1. unfold tracks. cbn [pings]. rewrite pget_pset, Nat.eqb_refl.
-    eexists. split; [reflexivity|]. cbn. auto. }
-  pose proof (tracks_run _ _ _ _ _ _ _ _ G1 Hal_mid T1 R2 Hnm Hnf) as T2. cbn [orb] in T2.
+  assert (Hfirst : ~ In (End p) mid /\ ~ In (Sent p false) mid).
+  { apply (first_return fx mid s1 s3 p). rewrite run_app, R2. cbn [run]. rewrite E3. reflexivity. }
+  destruct Hfirst as [Hnm Hnf].
+  pose proof (Good_run _ _ _ _ (Good_init _ Hn) R0) as G0.
+  pose proof (Good_step _ _ _ _ G0 E1) as G1.
+  (* after Begin p: p is registered with the identifier it was handed, not woken
+     (the table was not full: otherwise p has returned and End p is impossible) *)
+  assert (T1 : exists i, tracks p i false s1).
+  { cbn [step] in E1. destruct (pget (pings s0) p) eqn:Ep; [discriminate|].
+    destruct (table_full (tbl s0)).
+    - exfalso. inversion E1; subst s1.
+      assert (Hp1 : pget (pings (set_pings s0 (pset (pings s0) p
+                 (mkPing (next s0) false false false (Returned RBusy) (cnt s0))))) p =
+               Some (mkPing (next s0) false false false (Returned RBusy) (cnt s0)))
+        by (cbn [pings set_pings]; rewrite pget_pset, Nat.eqb_refl; reflexivity).
+      destruct (returned_stable _ _ _ _ _ _ _ Hp1 eq_refl R2) as (pg2 & Hp2 & Hph2 & _).
+      eapply returned_no_end; eauto.
+    - destruct (alloc (tbl s0) (next s0)) as [ia|]; [|discriminate]. cbv zeta in E1.
+      inversion E1; subst s1. exists ia. unfold tracks. cbn [pings]. rewrite pget_pset, Nat.eqb_refl.
+      eexists. split; [reflexivity|]. cbn. auto. }
+  destruct T1 as (i & T1).
+  pose proof (tracks_run _ _ _ _ _ _ _ G1 T1 R2 Hnm Hnf) as T2. cbn [orb] in T2.
   destruct T2 as (pg & Hp & Hid & Hw & Hr).
   (* End p *)
   cbn [step] in E3. rewrite Hp in E3. destruct (p_phase pg) eqn:Eph; try discriminate.
@@ -418,9 +273,9 @@ Proof.
                    (Returned (if p_recv pg then RNil else RTimeout)) (p_seq pg)))
       by (cbn [pings]; rewrite pget_pset, Nat.eqb_refl; reflexivity) end.
   destruct (returned_stable _ _ _ _ _ _ _ Hp3 eq_refl Hrun2) as (pgf & Hpf & Hrf & Hif).
-  cbn [p_id] in Hif. exists (next s0). unfold id_of, result_of. rewrite Hpf, Hrf. cbn [option_map].
+  cbn [p_id] in Hif. exists i. unfold id_of, result_of. rewrite Hpf, Hrf. cbn [option_map].
   split; [congruence|]. rewrite <- existsb_notify. rewrite Hr.
-  destruct (existsb (is_notify (next s0)) mid); split; split; intros H; try discriminate; try reflexivity; try congruence.
+  destruct (existsb (is_notify i) mid); split; split; intros H; try discriminate; try reflexivity; try congruence.
 Qed.
 
 (* a call whose send fails returns that error, whatever was parsed meanwhile *)
